@@ -21,7 +21,8 @@ RULE = ("exhaustive token sequences (every sequence of <= L symbols of a 45-symb
         "distinct = distinct input texts (exhaustive part distinct by construction, random part by hash).")
 ASSUMPTIONS = ["CPython 3.12 sys.monitoring PY_START events are deterministic for a given input",
                "nesting depth of generated inputs <= 25, so RecursionError is never legitimate here",
-               "step budget 5000 + 500*tokens (measured <= 55 steps per token on every linear family)"]
+               "step budget 5000 + 500*tokens + 4*characters (measured <= 55 steps per token on every linear family; a flag of 300000 "
+               "digits in a linemarker costs one helper call per character)"]
 SHARD_TIMEOUT = {"quick": 600, "thorough": 3000}
 
 ALPHA45 = ["int", "T", "struct", "enum", "const", "_Atomic", "static", "typedef", "inline", "_Alignas",
@@ -106,7 +107,7 @@ def judge(text, filename, steps, ntok=None, parser=None):
     p = parser or S.CParser()
     if ntok is None:
         ntok = max(1, len(text) // 2)
-    budget = 5000 + 500 * ntok
+    budget = 5000 + 500 * ntok + 4 * len(text)   # (per-character term: directive lines are scanned by small Python helpers)
     o = monitors.outcome(p.parse, text, filename, steps, budget)
     case = {"text": text, "filename": filename}
     if o[0] == "ok":
